@@ -648,7 +648,7 @@ func registerStubs(w *World) {
 		}
 		lim := in.allocLimit()
 		if !in.branch(Le(n, IntC(int64(lim)))) {
-			_, model := in.query()
+			model := in.bigModel()
 			in.Events = append(in.Events, Event{Kind: "cost", Msg: fmt.Sprintf("strings.Builder.Grow with size > %d (not bounded by data sizes)", lim), Where: in.where(), Model: model, Stack: in.stackNames()})
 			in.end("alloc", "Grow too large")
 		}
